@@ -9,8 +9,9 @@ from ..astutil import (
     ancestors, call_name, calls_in, dotted, enclosing_stmt, guard_atoms, lexical_guards, name_stores, subscript_stores,
     unparse, walk_local,
 )
-from ..report import Registry, sub
+from ..report import Registry, chain, sub
 from ._helpers_rules_b import call_sites, ordinal_keys
+from . import _helpers_rob_D2 as RD
 
 R = Registry(
     "C13",
@@ -99,6 +100,24 @@ def _supplied_mapping(name, f) -> bool:
     return False
 
 
+def _guards(ctx, pm, f, st):
+    """Branch outcomes under which `st` runs: the enclosing if/elif/else arms plus the CFG's dominating outcomes, so that
+    `if supplied: use it; continue` + default code is read like `if supplied: use it else: default code`."""
+    out = list(lexical_guards(pm, st, stop=f.node))
+    seen = {(id(t), p) for t, p in out}
+    try:
+        g = ctx.cfg(f)
+        nodes = g.nodes_for(st)
+    except Exception:  # pragma: no cover - a function the CFG builder cannot handle: lexical guards only
+        nodes = []
+    for nid in nodes[:1]:
+        for t, p in g.edge_guards(nid):
+            if (id(t), p) not in seen:
+                seen.add((id(t), p))
+                out.append((t, p))
+    return out
+
+
 @R.rule("C13-R1", floor=16, template="T-GUARD",
         desc="every call of a default-applying function in sql/crud.py is in the else-chain of a `key in <supplied "
              "values>` test (the supplied mapping derives from the statement's parameters); the value-consuming "
@@ -119,7 +138,7 @@ def r1(ctx):
     for key, (f, c, nm) in ordinal_keys(sites, lambda s: f"{s[0].key}:{s[2]}"):
         ctx.functions_analysed.add(f.key)
         st = enclosing_stmt(pm, c)
-        guards = lexical_guards(pm, st, stop=f.node)
+        guards = _guards(ctx, pm, f, st)
         ok, why = False, "no enclosing `key in <supplied>` test"
         for t, pol in guards:
             if pol is not False:
@@ -143,7 +162,7 @@ def r1(ctx):
     for key, (f, c) in ordinal_keys(sup, lambda s: f"{s[0].key}:{SUPPLIED_BRANCH}"):
         st = enclosing_stmt(pm, c)
         ok = False
-        for t, pol in lexical_guards(pm, st, stop=f.node):
+        for t, pol in _guards(ctx, pm, f, st):
             if pol is True and any(_supplied_mapping(mp, f) for k, mp in _membership(t, True)):
                 ok = True
         ctx.check(ok, key, f"`{SUPPLIED_BRANCH}(...)` (use the supplied value) is not under a positive `key in <supplied>` test",
@@ -187,22 +206,35 @@ def r2(ctx):
     ctx.require(found, "no server-side default test found in sql/crud.py")
     for key, (f, n, server, client) in ordinal_keys(found, lambda x: f"{x[0].key}:{x[2]}-after-{x[3]}"):
         ctx.functions_analysed.add(f.key)
-        chain = [(t, pol) for t, pol in lexical_guards(pm, n, stop=f.node)]
-        ok = any(pol is False and _mentions(t, client) for t, pol in chain)
+        arm_guards = _guards(ctx, pm, f, n)
+        ok = any(pol is False and _mentions(t, client) for t, pol in arm_guards)
         ctx.check(ok, key,
                   f"`if {unparse(n.test)[:60]}` is not an elif of the `.{client} is not None` test: a column with both a "
                   f"Python-side {client} and a {server} could get both (or the server one could win)",
                   f"elif after the `.{client}` arm", f"{m.path}:{n.lineno}")
-    # _append_param_update: one chain holds every effect
+    # _append_param_update: a column gets at most one VALUES entry and at most one fetch disposition
+    # (implicit RETURNING or post-fetch) -- no CFG path runs two effects of the same kind, however the arms are
+    # written (one if/elif chain, guard clauses with early return, ...)
     f = ctx.func(f"{CRUD}::_append_param_update")
-    top_ifs = [s for s in f.node.body if isinstance(s, ast.If)]
+    gu = ctx.cfg(f)
     effects = [c for c in calls_in(f.node) if isinstance(c.func, ast.Attribute) and c.func.attr in ("append", "extend")]
     ctx.require(effects, "_append_param_update has no effects")
-    outside = [unparse(c)[:50] for c in effects if not (top_ifs and any(x is c for x in ast.walk(top_ifs[0])))]
-    ctx.check(len(top_ifs) == 1 and not outside, f"{f.key}:single-chain",
-              f"_append_param_update has {len(top_ifs)} top-level if chains / effects outside the chain {outside}: more than "
-              f"one arm could apply to a column",
-              f"{len(effects)} effects inside one if/elif chain", f.loc)
+    groups = {}
+    for c in effects:
+        recv = (dotted(c.func.value) or unparse(c.func.value)).rsplit(".", 1)[-1]
+        kind = "fetch disposition" if recv in ("implicit_returning", "postfetch") else recv
+        groups.setdefault(kind, []).extend(gu.nodes_for(enclosing_stmt(pm, c)))
+    twice = []
+    for kind, nodes in sorted(groups.items()):
+        for y in nodes:
+            w = gu.witness([y], nodes, edge_ok=lambda a, b, l: l != "exc")
+            if w is not None:
+                twice.append((kind, gu.describe_path(w)))
+    ctx.check(not twice and {"values", "fetch disposition"} <= set(groups), f"{f.key}:single-chain",
+              f"_append_param_update can apply two arms to one column: {[k for k, _ in twice] or sorted(groups)} effect happens "
+              f"twice on one path",
+              f"{len(effects)} effects, at most one per kind ({', '.join(sorted(groups))}) on every path", f.loc,
+              twice[0][1] if twice else None)
     # client-side onupdate value only in the onupdate arm
     upd = [c for c in calls_in(f.node) if (call_name(c) or "").endswith("_create_update_prefetch_bind_param")
            or "onupdate.arg" in unparse(c)]
@@ -253,23 +285,34 @@ def r3(ctx):
                       f"{cf.qualname} creates a {kind}-prefetch bind but its path consults "
                       f"{sorted(gattrs & {'default', 'onupdate'}) or sorted(attrs & {'default', 'onupdate'})} (want `.{want}`)",
                       f"path consults `.{want}`", f"{cf.module.path}:{cc.lineno}")
-    # (b) execution time wiring
+    # (b) execution time wiring.  The per-kind record lists are recognised by how they are built (comprehension, or
+    # `recs = []` + append loop, also through a bound-method alias), their elements with local aliases resolved
+    # (`getter = self.get_insert_default`).
     f = ctx.func(f"{DEF}::DefaultExecutionContext._process_execute_defaults")
     pmd = f.module.parents()
-    comps = [(n, v) for n, v, st in name_stores(f.node) if isinstance(v, ast.ListComp) and isinstance(v.elt, ast.Tuple)]
-    recs = {}
-    for n, v in comps:
-        it = v.generators[0].iter
-        if isinstance(it, ast.Attribute) and it.attr.endswith("_prefetch"):
-            recs[it.attr[: -len("_prefetch")]] = (n, v)
-    ctx.require(set(recs) == {"insert", "update"}, f"prefetch record comprehensions not found ({sorted(recs)})")
+    g = ctx.cfg(f)
+    defs = RD.single_defs(f.node)
+    recs, all_builds = {}, {}
+    for nm in sorted({n for n, v, st in name_stores(f.node)}):
+        builds = RD.list_builds(f.node, nm, pmd)
+        if not builds:
+            continue
+        for b in builds:
+            if b.form in ("comp", "loop") and isinstance(RD.strip_cast(b.elt), ast.Tuple):
+                it = RD.resolve(b.iter, defs)
+                if isinstance(it, ast.Attribute) and it.attr.endswith("_prefetch") and not b.ifs:
+                    kind = it.attr[: -len("_prefetch")]
+                    ctx.require(kind not in recs, f"{kind}_prefetch records are built more than once")
+                    recs[kind] = (nm, b, [RD.resolve(e, defs) for e in RD.strip_cast(b.elt).elts])
+                    all_builds[nm] = builds
+    ctx.require(set(recs) == {"insert", "update"}, f"prefetch record lists (one tuple per column of <compiled>.insert_prefetch / "
+                                                   f".update_prefetch) not found ({sorted(recs)})")
     sch = ctx.index.cls("sql/schema.py::Column")
-    for kind, (n, v) in sorted(recs.items()):
+    for kind, (n, b, elts) in sorted(recs.items()):
         want = kind_attr[kind]
-        elts = v.elt.elts
         desc_attrs = [e.attr for e in elts if isinstance(e, ast.Attribute) and e.attr.endswith("_description_tuple")]
         getters = [e.attr for e in elts if isinstance(e, ast.Attribute) and e.attr.startswith("get_") and e.attr.endswith("_default")]
-        ctx.require(len(desc_attrs) == 1 and len(getters) == 1, f"{kind} prefetch record `{unparse(v.elt)[:80]}` not understood")
+        ctx.require(len(desc_attrs) == 1 and len(getters) == 1, f"{kind} prefetch record `{unparse(b.elt)[:80]}` not understood")
         # what does the description property read? what does the getter read?
         dprop = ctx.index.resolve_method(sch, desc_attrs[0])
         ctx.require(dprop is not None, f"Column.{desc_attrs[0]} not found")
@@ -283,41 +326,66 @@ def r3(ctx):
                   f"{kind}_prefetch columns are paired with Column.{desc_attrs[0]} (reads {sorted(dreads)}) and {getters[0]} "
                   f"(reads {sorted(greads)}); both must read `.{want}`",
                   f"{desc_attrs[0]} / {getters[0]} both read `.{want}`", f.loc)
-    # the two arms are exclusive
-    binds = [st for n, v, st in name_stores(f.node) if n in {recs["insert"][0], recs["update"][0]} and isinstance(v, ast.ListComp)]
-    g0 = lexical_guards(pmd, binds[0], stop=f.node)
-    g1 = lexical_guards(pmd, binds[1], stop=f.node)
+    # the two arms are exclusive (some branch outcome -- lexical or an early exit -- separates them), and an
+    # append-loop build starts from an empty list
+    g0 = RD.guards_of(g, pmd, f.node, recs["insert"][1].holder)
+    g1 = RD.guards_of(g, pmd, f.node, recs["update"][1].holder)
     excl = any(t is t2 and p != p2 for t, p in g0 for t2, p2 in g1)
-    ctx.check(excl, f"{f.key}:insert-update-exclusive", "insert and update prefetch records are not built in exclusive branches",
-              "if insert_prefetch / elif update_prefetch", f.loc)
+    stale = None
+    for nm, builds in sorted(all_builds.items()):
+        stale = stale or RD.loop_builds_fresh(g, builds)
+    ctx.check(excl and stale is None, f"{f.key}:insert-update-exclusive",
+              "insert and update prefetch records are not built in exclusive branches"
+              + ("" if stale is None else " / the record list is appended to without being emptied first"),
+              "if insert_prefetch / elif update_prefetch", f.loc, stale)
     # (c) per row chain, following the description tuple's field order
     dt = ctx.index.cls("sql/base.py::_DefaultDescriptionTuple")
     fields = [s.target.id for s in dt.node.body if isinstance(s, ast.AnnAssign) and isinstance(s.target, ast.Name)]
     ctx.require(fields[:1] == ["arg"] and {"is_scalar", "is_callable", "is_sentinel"} <= set(fields), f"_DefaultDescriptionTuple fields changed: {fields}")
-    rowloops = [n for n in walk_local(f.node) if isinstance(n, ast.For) and isinstance(n.iter, ast.Attribute) and n.iter.attr == "compiled_parameters"]
+    rowloops = [n for n in walk_local(f.node) if isinstance(n, ast.For) and isinstance(RD.resolve(n.iter, defs), ast.Attribute)
+                and RD.resolve(n.iter, defs).attr == "compiled_parameters"]
     ctx.require(len(rowloops) == 1 and isinstance(rowloops[0].target, ast.Name), "per-row loop over self.compiled_parameters not found")
     rowloop = rowloops[0]
     row = rowloop.target.id
-    inner = [n for n in walk_local(rowloop) if isinstance(n, ast.For) and isinstance(n.iter, ast.Name) and n.iter.id in {recs["insert"][0], recs["update"][0]}]
+    rec_names = {recs["insert"][0], recs["update"][0]}
+    inner = [n for n in walk_local(rowloop) if isinstance(n, ast.For) and isinstance(n.iter, ast.Name) and n.iter.id in rec_names]
     ctx.require(len(inner) == 1 and isinstance(inner[0].target, ast.Tuple), "per-column loop over the prefetch records not found")
     tgt = inner[0].target.elts
-    rec_elts = recs["insert"][1].elt.elts
+    rec_elts = recs["insert"][2]
     ctx.require(len(tgt) == len(rec_elts), "record arity and loop target arity differ")
     # positions: column, key, description, getter
     pos_desc = [i for i, e in enumerate(rec_elts) if isinstance(e, ast.Attribute) and e.attr.endswith("_description_tuple")][0]
     pos_get = [i for i, e in enumerate(rec_elts) if isinstance(e, ast.Attribute) and e.attr.startswith("get_")][0]
-    pos_col = [i for i, e in enumerate(rec_elts) if isinstance(e, ast.Name)][0]
+    pos_cols = [i for i, e in enumerate(rec_elts) if isinstance(e, ast.Name)]
+    ctx.require(pos_cols, "the record does not carry the column itself")
+    pos_col = pos_cols[0]
     pos_key = [i for i in range(len(rec_elts)) if i not in (pos_desc, pos_get, pos_col)][0]
-    same_layout = [type(e).__name__ for e in recs["update"][1].elt.elts] == [type(e).__name__ for e in rec_elts]
+    same_layout = [type(e).__name__ for e in recs["update"][2]] == [type(e).__name__ for e in rec_elts]
     d_t = tgt[pos_desc]
-    ctx.require(isinstance(d_t, ast.Tuple) and len(d_t.elts) == len(fields) and all(isinstance(e, ast.Name) for e in d_t.elts),
-                "description tuple is not unpacked field by field")
-    role = {fields[i]: d_t.elts[i].id for i in range(len(fields))}
+    # the description is taken apart field by field: in the loop target, by a tuple assignment in the body, or by
+    # attribute access on the named tuple
+    if isinstance(d_t, ast.Name):
+        unpack = [st for st in walk_local(inner[0]) if isinstance(st, ast.Assign) and len(st.targets) == 1
+                  and isinstance(st.targets[0], (ast.Tuple, ast.List)) and isinstance(st.value, ast.Name) and st.value.id == d_t.id]
+        if unpack:
+            ctx.require(len(unpack) == 1 and any(unpack[0] is x for x in inner[0].body), "description tuple unpacked more than once / conditionally")
+            d_t = unpack[0].targets[0]
+    if isinstance(d_t, ast.Name):
+        role = {fld: f"{d_t.id}.{fld}" for fld in fields}
+        ctx.require(any(isinstance(a, ast.Attribute) and isinstance(a.value, ast.Name) and a.value.id == d_t.id and a.attr in fields
+                        for a in ast.walk(inner[0])), "description tuple is neither unpacked nor read by field name")
+    else:
+        ctx.require(isinstance(d_t, (ast.Tuple, ast.List)) and len(d_t.elts) == len(fields) and all(isinstance(e, ast.Name) for e in d_t.elts),
+                    "description tuple is not unpacked field by field")
+        role = {fields[i]: d_t.elts[i].id for i in range(len(fields))}
+    ctx.require(all(isinstance(tgt[i], ast.Name) for i in (pos_col, pos_key, pos_get)), "record fields are not bound to plain names")
     colv, keyv, getv = tgt[pos_col].id, tgt[pos_key].id, tgt[pos_get].id
     stores = [(s, st) for d, s, st in subscript_stores(inner[0]) if d == row]
+    handed = [unparse(c)[:60] for c in calls_in(inner[0]) if any(isinstance(a, ast.Name) and a.id == row for a in c.args)]
+    ctx.require(stores or not handed, f"the row is handed to {handed}: a per-column dispatch moved into a helper is not followed (not understood)")
     arms = {}
     for s, st in stores:
-        atoms = guard_atoms(lexical_guards(pmd, st, stop=inner[0]))
+        atoms = sorted(RD.atoms_of(RD.guards_of(g, pmd, f.node, st, defs)))
         pos = [a for a, p in atoms if p]
         arm = next((r for r, var in role.items() if var in pos), "fallback")
         arms.setdefault(arm, []).append((s, st, atoms))
@@ -351,7 +419,6 @@ def r3(ctx):
         chain_ok = all((role[r], False) in fb_atoms for r in order)
         for i, r in enumerate(order):
             a = arms[r][0][2]
-            others = [x for x in order if x != r]
             # exactly one positive role atom
             if sum(1 for x in order if (role[x], True) in a) != 1:
                 chain_ok = False
@@ -360,11 +427,10 @@ def r3(ctx):
               f"_DefaultDescriptionTuple{tuple(fields)}: {problems or 'arms are not mutually exclusive'}",
               f"sentinel / scalar `{role['arg']}` / callable `{role['arg']}(self)` / `{getv}({colv})`, keyed by `{keyv}`", f.loc)
     # (d) context set before a callable / fallback default runs
-    g = ctx.cfg(f)
     cur_par = [n.id for n in g.nodes if n.kind == "stmt" and isinstance(n.stmt, ast.Assign)
                and any(dotted(t) == "self.current_parameters" for t in n.stmt.targets) and unparse(n.stmt.value) == row]
     runs = [n.id for n in g.nodes if n.kind == "stmt" and n.stmt is not None and any(
-        isinstance(c.func, ast.Name) and c.func.id in (role["arg"], getv) for c in calls_in(n.stmt))]
+        unparse(c.func) in (role["arg"], getv) for c in calls_in(n.stmt))]
     ctx.require(runs, "no execution of a callable / fallback default found")
     miss = None
     for rn in runs:
@@ -377,19 +443,20 @@ def r3(ctx):
     ctx.check(miss is None, f"{f.key}:current-parameters-set-per-row",
               "a context-sensitive default can run before self.current_parameters is set to the row being processed",
               "self.current_parameters = <row> on every path into a default call", f.loc, miss)
+    # self.current_column = <column> on every path from the start of the column's round to the callable's invocation
     call_arm = arms.get("is_callable", [])
-    colset = False
+    colset, wit = False, None
     if call_arm:
-        st = call_arm[0][1]
-        par = pmd.get(st)
-        blk = getattr(par, "body", []) if any(x is st for x in getattr(par, "body", [])) else getattr(par, "orelse", [])
-        idx = [i for i, x in enumerate(blk) if x is st]
-        if idx:
-            colset = any(isinstance(x, ast.Assign) and any(dotted(t) == "self.current_column" for t in x.targets)
-                         and unparse(x.value) == colv for x in blk[: idx[0]])
+        cn = g.nodes_for(call_arm[0][1])
+        sets = [n.id for n in g.nodes if n.kind == "stmt" and isinstance(n.stmt, ast.Assign)
+                and any(dotted(t) == "self.current_column" for t in n.stmt.targets) and unparse(n.stmt.value) == colv]
+        head = g.nodes_for(inner[0])
+        if cn and head:
+            wit = g.must_pass([b for b, lab in g.succ[head[0]] if lab == "true" and b not in sets], cn, sets, edge_ok=lambda a, b, l: l != "exc")
+            colset = bool(sets) and wit is None
     ctx.check(colset, f"{f.key}:current-column-set-before-callable",
               f"the callable default is invoked without `self.current_column = {colv}` first (context.current_column would be stale)",
-              f"self.current_column = {colv} precedes the call", f.loc)
+              f"self.current_column = {colv} precedes the call", f.loc, wit)
 
 
 # ---------------------------------------------------------------------- R4 / R5 (added by str-e)
@@ -451,14 +518,14 @@ def r4(ctx):
     pm = m.parents()
     gates = {}
     for f, c, nm in sites:
-        for t, pol in lexical_guards(pm, enclosing_stmt(pm, c), stop=f.node):
+        for t, pol in _guards(ctx, pm, f, enclosing_stmt(pm, c)):
             sup = {mp for k, mp in _membership_any(t) if _supplied_mapping(mp, f)}
             if sup and pol is False:
                 gates.setdefault(id(t), (f, t, sup))
     for f in m.functions.values():
         for c in calls_in(f.node, into_nested=True):
             if call_name(c) == SUPPLIED_BRANCH:
-                for t, pol in lexical_guards(pm, enclosing_stmt(pm, c), stop=f.node):
+                for t, pol in _guards(ctx, pm, f, enclosing_stmt(pm, c)):
                     sup = {mp for k, mp in _membership_any(t) if _supplied_mapping(mp, f)}
                     if sup and pol is True:
                         gates.setdefault(id(t), (f, t, sup))
@@ -924,3 +991,85 @@ R.mutant("benign-insert-executemany-rename-zipped-params", PERS,
 R.mutant("benign-update-executemany-zipped-with-compiled-parameters", PERS,
          sub("                    has_all_defaults,\n                    has_all_pks,\n                ) in records:\n                    if bookkeeping:\n                        _postfetch(\n                            mapper,\n                            uowtransaction,\n                            table,\n                            state,\n                            state_dict,\n                            c,\n                            c.context.compiled_parameters[0],\n",
              "                    has_all_defaults,\n                    has_all_pks,\n                ), compiled_params in zip(\n                    records, c.context.compiled_parameters\n                ):\n                    if bookkeeping:\n                        _postfetch(\n                            mapper,\n                            uowtransaction,\n                            table,\n                            state,\n                            state_dict,\n                            c,\n                            compiled_params,\n"), None)
+
+# ---- rob-D2: benign refactoring families of _process_execute_defaults (stored diff rfD_13 and relatives) and the
+# ---- breaking twins the generalised recognisers must still catch
+_INS_COMP = (
+    "            prefetch_recs = [\n                (\n                    c,\n                    key_getter(c),\n"
+    "                    c._default_description_tuple,\n                    self.get_insert_default,\n                )\n"
+    "                for c in compiled.insert_prefetch\n            ]\n"
+)
+_UPD_COMP = (
+    "            prefetch_recs = [\n                (\n                    c,\n                    key_getter(c),\n"
+    "                    c._onupdate_description_tuple,\n                    self.get_update_default,\n                )\n"
+    "                for c in compiled.update_prefetch\n            ]\n"
+)
+
+
+def _rec_loop(coll, desc, getter_alias, getter):
+    return (f"            {getter_alias} = self.{getter}\n            for c in compiled.{coll}:\n"
+            f"                prefetch_recs.append(\n                    (\n                        c,\n                        key_getter(c),\n"
+            f"                        c.{desc},\n                        {getter_alias},\n                    )\n                )\n")
+
+
+_LOOPS = chain(
+    sub("        if compiled.insert_prefetch:\n" + _INS_COMP, "        prefetch_recs = []\n        if compiled.insert_prefetch:\n"
+        + _rec_loop("insert_prefetch", "_default_description_tuple", "get_insert_default", "get_insert_default")),
+    sub(_UPD_COMP + "        else:\n            prefetch_recs = []\n",
+        _rec_loop("update_prefetch", "_onupdate_description_tuple", "get_update_default", "get_update_default")))
+_TARGET = ("            for (\n                c,\n                param_key,\n                (arg, is_scalar, is_callable, is_sentinel),\n"
+           "                fallback,\n            ) in prefetch_recs:\n")
+R.mutant("benign-rob-records-by-append-loops-getter-alias-unpack-in-body", DEF,
+         chain(_LOOPS, sub(_TARGET, "            for c, param_key, default_description, fallback in prefetch_recs:\n"
+                                    "                arg, is_scalar, is_callable, is_sentinel = default_description\n")), None)
+R.mutant("rob-append-loop-update-records-with-insert-getter-alias", DEF,
+         chain(sub("        if compiled.insert_prefetch:\n" + _INS_COMP, "        prefetch_recs = []\n        if compiled.insert_prefetch:\n"
+                   + _rec_loop("insert_prefetch", "_default_description_tuple", "get_insert_default", "get_insert_default")),
+               sub(_UPD_COMP + "        else:\n            prefetch_recs = []\n",
+                   _rec_loop("update_prefetch", "_onupdate_description_tuple", "get_update_default", "get_insert_default"))), "C13-R3")
+R.mutant("rob-append-loops-not-exclusive", DEF,
+         chain(_LOOPS, sub("        elif compiled.update_prefetch:\n            get_update_default = self.get_update_default\n",
+                           "        if compiled.update_prefetch:\n            get_update_default = self.get_update_default\n")), "C13-R3")
+R.mutant("rob-description-unpacked-in-body-in-wrong-order", DEF,
+         sub(_TARGET, "            for c, param_key, default_description, fallback in prefetch_recs:\n"
+                      "                arg, is_callable, is_scalar, is_sentinel = default_description\n"), "C13-R3")
+R.mutant("benign-rob-description-read-by-field-name", DEF,
+         chain(sub(_TARGET, "            for c, param_key, dflt, fallback in prefetch_recs:\n"),
+               sub("                if is_sentinel:\n", "                if dflt.is_sentinel:\n"),
+               sub("                elif is_scalar:\n                    param[param_key] = arg\n", "                elif dflt.is_scalar:\n                    param[param_key] = dflt.arg\n"),
+               sub("                elif is_callable:\n                    self.current_column = c\n                    param[param_key] = arg(self)\n",
+                   "                elif dflt.is_callable:\n                    self.current_column = c\n                    param[param_key] = dflt.arg(self)\n")), None)
+R.mutant("rob-field-name-access-scalar-arm-under-callable-flag", DEF,
+         chain(sub(_TARGET, "            for c, param_key, dflt, fallback in prefetch_recs:\n"),
+               sub("                if is_sentinel:\n", "                if dflt.is_sentinel:\n"),
+               sub("                elif is_scalar:\n                    param[param_key] = arg\n", "                elif dflt.is_callable:\n                    param[param_key] = dflt.arg\n"),
+               sub("                elif is_callable:\n                    self.current_column = c\n                    param[param_key] = arg(self)\n",
+                   "                elif dflt.is_scalar:\n                    self.current_column = c\n                    param[param_key] = dflt.arg(self)\n")), "C13-R3")
+R.mutant("benign-rob-dispatch-chain-as-guard-clauses-with-continue", DEF,
+         RD.ast_edit("DefaultExecutionContext._process_execute_defaults", RD.t_elif_chain_to_continues("is_sentinel")), None)
+R.mutant("rob-guard-clause-chain-scalar-arm-falls-through", DEF,
+         RD.ast_edit("DefaultExecutionContext._process_execute_defaults", RD.t_elif_chain_to_continues("is_sentinel"),
+                     RD.t_drop_continue("is_scalar")), "C13-R3")
+R.mutant("benign-rob-record-tuple-in-a-local-then-appended", DEF,
+         sub("        if compiled.insert_prefetch:\n" + _INS_COMP,
+             "        if compiled.insert_prefetch:\n            prefetch_recs = []\n            for c in compiled.insert_prefetch:\n"
+             "                rec = (\n                    c,\n                    key_getter(c),\n                    c._default_description_tuple,\n"
+             "                    self.get_insert_default,\n                )\n                prefetch_recs.append(rec)\n"), None)
+R.mutant("benign-rob-fallback-value-bound-by-walrus", DEF,
+         sub("                    val = fallback(c)\n                    if val is not None:\n", "                    if (val := fallback(c)) is not None:\n"), None)
+R.mutant("benign-rob-current-column-set-at-top-of-callable-arm-with-logging", DEF,
+         sub("                elif is_callable:\n                    self.current_column = c\n                    param[param_key] = arg(self)",
+             "                elif is_callable:\n                    self.current_column = c\n                    _dbg = param_key\n                    param[param_key] = arg(self)"), None)
+R.mutant("rob-current-column-set-only-for-primary-keys", DEF,
+         sub("                elif is_callable:\n                    self.current_column = c\n                    param[param_key] = arg(self)",
+             "                elif is_callable:\n                    if c.primary_key:\n                        self.current_column = c\n                    param[param_key] = arg(self)"), "C13-R3")
+R.mutant("benign-rob-from-select-supplied-arm-with-early-continue", CRUD,
+         sub("            values.append((c, compiler.preparer.format_column(c), None, ()))\n        else:\n            _append_param_insert_select_hasdefault(\n                compiler, stmt, c, add_select_cols, kw\n            )\n",
+             "            values.append((c, compiler.preparer.format_column(c), None, ()))\n            continue\n        _append_param_insert_select_hasdefault(\n            compiler, stmt, c, add_select_cols, kw\n        )\n"), None)
+R.mutant("rob-from-select-supplied-arm-falls-through-to-default", CRUD,
+         sub("            values.append((c, compiler.preparer.format_column(c), None, ()))\n        else:\n            _append_param_insert_select_hasdefault(\n                compiler, stmt, c, add_select_cols, kw\n            )\n",
+             "            values.append((c, compiler.preparer.format_column(c), None, ()))\n        _append_param_insert_select_hasdefault(\n            compiler, stmt, c, add_select_cols, kw\n        )\n"), "C13-R1")
+R.mutant("benign-rob-append-param-update-as-guard-clauses", CRUD,
+         RD.ast_edit("_append_param_update", RD.t_chain_to_returns("c.onupdate is not None")), None)
+R.mutant("rob-append-param-update-guard-clause-without-return", CRUD,
+         RD.ast_edit("_append_param_update", RD.t_chain_to_returns("c.onupdate is not None"), RD.t_drop_return("c.server_onupdate is not None")), "C13-R2")
